@@ -841,8 +841,13 @@ class Node:
             message_id = (f"{conn.ident}:"
                           f"{msg.header.hop_by_hop_identifier}:"
                           f"{msg.header.end_to_end_identifier}")
-            self._origin_waiting_answer[message_id] = (
-                msg.origin_host, time.time())
+            # under the node lock and only for a connection that is still
+            # listed: the connection thread drops these records when it
+            # removes a connection, which may happen at this very moment
+            with self._busy_lock:
+                if conn.ident in self.connections:
+                    self._origin_waiting_answer[message_id] = (
+                        msg.origin_host, time.time())
 
         peer = self._find_connection_peer(conn)
         if peer:
